@@ -502,3 +502,7 @@ Proof.
     as [Ho Hr].
   split; [exact Ho|apply R_view; exact Hr].
 Qed.
+
+(* the Definition of Uapi/Proofs.v is hereby discharged *)
+Theorem model_refines_spec_statement_holds : model_refines_spec_statement.
+Proof. exact model_refines_spec. Qed.
